@@ -86,7 +86,7 @@ def log_of_rotation(env, cfg, ck):
         ck.true('shape', tuple(L.shape) == (3, 3))
         ck.eq('algebra-form', L + L.T, np.zeros((3, 3)), tol=1e-9)
         w = np.array([L[2, 1], L[0, 2], L[1, 0]])
-    ck.true('magnitude<=pi', A.normsq(np, w) <= env.pi * env.pi)
+    ck.le('magnitude<=pi', A.normsq(np, w), env.pi * env.pi)
     ck.eq('log(exp(S))=S', w, phi * np.array(u), tol=1e-7)
     ck.eq('exp(log(R))=R', ck.call(b.trexp, L), R, tol=1e-7)
 
